@@ -46,6 +46,7 @@ properties! {
     "C16" => c16,
     "C17" => c17,
     "C18" => c18,
+    "C19" => c19,
 }
 
 /// Replay one stored case (a replay/regression JSON written by `Ctx::finish`).
